@@ -38,6 +38,7 @@ def split_lengths(nodes):
 
 class Check(PropCheck):
     pid = 'C07'
+    pure_predicate = True
     tol = None
     strict_err_ops = ('wrf', 'kf', 'cmp_topo', 'cmp_branch')
     rule = ('pairs of trees (NNI-like neighbours, reorderings, independent trees, both root styles, unary chains, two-child roots '
